@@ -548,7 +548,10 @@ func (c *Connection) setupConnection() error {
 				c.handshakeVersion = version
 				c.handshakeVersionData = versionData
 				if c.useNodeToNodeProto && versionData != nil {
-					if versionData.DiffusionMode() == protocol.DiffusionModeInitiatorAndResponder {
+					// Full duplex requires both the peer's diffusion mode and
+					// a negotiated version that supports it
+					if versionData.DiffusionMode() == protocol.DiffusionModeInitiatorAndResponder &&
+						protocol.GetProtocolVersion(version).EnableFullDuplex {
 						handshakeFullDuplex = true
 					}
 				}
